@@ -25,9 +25,11 @@ package transport
 
 // ---------------------------------------------------------------- receiver side: the per-stream state machine (C15)
 
+// the key of a stream is made of the receiving replica (shard, replica) and the snapshot INDEX:
+// fmt.Sprintf of a constant format and scalar arguments is modelled as an uninterpreted function of
+// the format and the argument values (sprintf(...) in specifications)
 //@ func chunkKey [C15]
-//@ trusted fmt.Sprintf of (ShardID, ReplicaID, Index); modelled as an uninterpreted function of those three fields
-//@ ensures result == uf("chunkKeyOf", c.ShardID, c.ReplicaID, c.Index)
+//@ ensures result == sprintf("%d:%d:%d", c.ShardID, c.ReplicaID, c.Index)
 
 //@ func (c *Chunk) removeTempDir [C15]
 //@ trusted file-system effects only (removes the temporary snapshot directory)
@@ -44,15 +46,15 @@ package transport
 //@ modifies held(c.mu), entries(c.tracked), allof(tracked.next), allof(tracked.tick), allof(tracked.files), rsm.gLastAddOK, rsm.gAddCalls
 //@ ensures chunk.ChunkId != 0 ==> rsm.gAddCalls == old(rsm.gAddCalls)
 //@ ensures held(c.mu) == 0
-//@ ensures result != nil && chunk.ChunkId != 0 ==> old(uf("chunkKeyOf", chunk.ShardID, chunk.ReplicaID, chunk.Index) in c.tracked) &&
-//@    result == old(c.tracked[uf("chunkKeyOf", chunk.ShardID, chunk.ReplicaID, chunk.Index)]) &&
+//@ ensures result != nil && chunk.ChunkId != 0 ==> old(sprintf("%d:%d:%d", chunk.ShardID, chunk.ReplicaID, chunk.Index) in c.tracked) &&
+//@    result == old(c.tracked[sprintf("%d:%d:%d", chunk.ShardID, chunk.ReplicaID, chunk.Index)]) &&
 //@    old(result.next) == chunk.ChunkId && result.first.From == chunk.From && result.next == chunk.ChunkId + 1
 //@ ensures result != nil && chunk.ChunkId == 0 ==> fresh(result) && result.next == 1 && result.first.From == chunk.From && result.first.ChunkId == 0 &&
-//@    c.tracked[uf("chunkKeyOf", chunk.ShardID, chunk.ReplicaID, chunk.Index)] == result
+//@    c.tracked[sprintf("%d:%d:%d", chunk.ShardID, chunk.ReplicaID, chunk.Index)] == result
 //@ ensures result == nil && chunk.ChunkId != 0 ==> (forall k string :: (k in c.tracked) == old(k in c.tracked) && c.tracked[k] == old(c.tracked[k])) &&
-//@    (old(uf("chunkKeyOf", chunk.ShardID, chunk.ReplicaID, chunk.Index) in c.tracked) && old(c.tracked[uf("chunkKeyOf", chunk.ShardID, chunk.ReplicaID, chunk.Index)]) != nil ==>
-//@       old(c.tracked[uf("chunkKeyOf", chunk.ShardID, chunk.ReplicaID, chunk.Index)]).next == old(c.tracked[uf("chunkKeyOf", chunk.ShardID, chunk.ReplicaID, chunk.Index)].next))
-//@ ensures forall k string :: k != uf("chunkKeyOf", chunk.ShardID, chunk.ReplicaID, chunk.Index) ==> (k in c.tracked) == old(k in c.tracked) && c.tracked[k] == old(c.tracked[k])
+//@    (old(sprintf("%d:%d:%d", chunk.ShardID, chunk.ReplicaID, chunk.Index) in c.tracked) && old(c.tracked[sprintf("%d:%d:%d", chunk.ShardID, chunk.ReplicaID, chunk.Index)]) != nil ==>
+//@       old(c.tracked[sprintf("%d:%d:%d", chunk.ShardID, chunk.ReplicaID, chunk.Index)]).next == old(c.tracked[sprintf("%d:%d:%d", chunk.ShardID, chunk.ReplicaID, chunk.Index)].next))
+//@ ensures forall k string :: k != sprintf("%d:%d:%d", chunk.ShardID, chunk.ReplicaID, chunk.Index) ==> (k in c.tracked) == old(k in c.tracked) && c.tracked[k] == old(c.tracked[k])
 
 // ---------------------------------------------------------------- receiver side: accept, save, finalize, deliver (C15)
 // From the property: the received snapshot is handed to raft only if it was reassembled exactly:
@@ -114,7 +116,7 @@ package transport
 //@ modifies rsm.gLastAddOK, rsm.gAddCalls, rsm.gStreamValid, gRecvFinalized, gChunkDirty, held(c.mu), entries(c.tracked), allof(tracked.next), allof(tracked.tick), allof(tracked.files)
 // From the property: a stream with a corrupt chunk never finalizes. A chunk the validator rejects
 // ends its stream: the stream is no longer tracked, so the remaining chunks are ignored.
-//@ ensures chunk.ChunkId != 0 && rsm.gAddCalls > old(rsm.gAddCalls) && !rsm.gLastAddOK ==> !result && !(uf("chunkKeyOf", chunk.ShardID, chunk.ReplicaID, chunk.Index) in c.tracked)
+//@ ensures chunk.ChunkId != 0 && rsm.gAddCalls > old(rsm.gAddCalls) && !rsm.gLastAddOK ==> !result && !(sprintf("%d:%d:%d", chunk.ShardID, chunk.ReplicaID, chunk.Index) in c.tracked)
 
 // ---------------------------------------------------------------- TCP frames: a payload is accepted only with a matching checksum (C13)
 // crc32 is uninterpreted; its error-detection power is an assumption, what is proved is that an
